@@ -309,15 +309,17 @@ theorem shipped_firstKindOK : ∀ L ∈ Gen.all.map (·.2), ∀ hp ∈ L.pats,
     (match compileTok hp.expr with | .ok D => firstKindOK D | .error _ => false) = true := by
   decide +kernel
 
-/-- The start column points at a character of its line, `1 ≤ m.sc ≤ |ls|`, and that character is
+/-- (`_partial`: the statement without `hnk` is false of the model, `start_column_past_line`; the
+extra hypothesis is the clause `NamesStartInLine` of the lexer contract, `Spec/Scan.lean`.)
+The start column points at a character of its line, `1 ≤ m.sc ≤ |ls|`, and that character is
 the first character of the header's first token - under the additional lexer hypothesis `hnk`
 that no keyword or name token starts with a newline character (true of every Pygments lexer;
 `start_column_past_line` shows that the model needs it).  Uses: every measurement starts at the
 first token of an extracted header, and every shipped header pattern starts with a keyword or a
 name token. -/
-theorem start_column_in_line (L : Language) (hL : L ∈ Gen.all.map (·.2)) (code : Str)
+theorem start_column_in_line_partial (L : Language) (hL : L ∈ Gen.all.map (·.2)) (code : Str)
     (raw : List RawTok) (h : RawOk code raw) (hne : ∀ t ∈ raw, t.kind ≠ 6 → t.val ≠ [])
-    (hnk : ∀ r ∈ raw, r.kind = 1 ∨ r.kind = 2 → r.val.head? ≠ some 10)
+    (hnk : NamesStartInLine raw)
     (ms : List Measurement) (n : Nat) (ha : analyze L code raw = .ok (ms, n)) :
     ∀ m ∈ ms, ∃ ls o c, (splitLines code)[m.sl - 1]? = some ls ∧ 1 ≤ m.sc ∧ m.sc ≤ ls.length ∧
       locationToIndex code m.sl m.sc = .ok o ∧ code[o]? = some c ∧ ls[m.sc - 1]? = some c := by
@@ -356,6 +358,50 @@ theorem start_column_in_line (L : Language) (hL : L ∈ Gen.all.map (·.2)) (cod
     by rw [hsc]; exact h3a, ?_, by simp [hilt], by rw [hsc]; exact h3b⟩
   rw [hsl, hsc]
   exact locationToIndex_lineOf_colOf code ri.off (Nat.le_of_lt hilt)
+
+/-! ## 4b. the whole per-measurement clause of C05, as one predicate on the text -/
+
+/-- **the per-measurement clause of C05 for a text and its lexer output**, everything at once:
+`m` starts at the (line, column) of a code token `ri` and ends just past a code token `rj`
+(`location_to_index` maps both positions back to the offsets); lines are within `1 … numLines`,
+the start lies strictly before the end; the start column points AT a character of its line
+(`1 ≤ sc ≤ |line|`), the end column at most one past the end of its line; the name is the text of
+a `Name` token `rk` that lies inside the span; and `1 ≤ len ≤` the number of distinct lines on
+which the code tokens of the span begin. -/
+def MeasurementTextWF (code : Str) (raw : List RawTok) (m : Measurement) : Prop :=
+  ∃ ri rj rk ls le, ri ∈ raw ∧ rj ∈ raw ∧ rk ∈ raw ∧
+    isCodeRaw ri = true ∧ isCodeRaw rj = true ∧ isCodeRaw rk = true ∧ rk.kind = 2 ∧
+    ri.off ≤ rk.off ∧ rk.off ≤ rj.off ∧ rj.off + rj.val.length ≤ code.length ∧
+    locationToIndex code m.sl m.sc = .ok ri.off ∧
+    locationToIndex code m.el m.ec = .ok (rj.off + rj.val.length) ∧
+    1 ≤ m.sl ∧ m.sl ≤ m.el ∧ m.el ≤ numLines code ∧ (m.sl < m.el ∨ (m.sl = m.el ∧ m.sc < m.ec)) ∧
+    (splitLines code)[m.sl - 1]? = some ls ∧ (splitLines code)[m.el - 1]? = some le ∧
+    1 ≤ m.sc ∧ m.sc ≤ ls.length ∧ 1 ≤ m.ec ∧ m.ec ≤ le.length + 1 ∧
+    m.name = rk.val ∧ (code.drop rk.off).take m.name.length = m.name ∧
+    rk.off + m.name.length ≤ rj.off + rj.val.length ∧
+    1 ≤ m.len ∧
+    m.len ≤ countDistinct
+      (((codeRaw raw).filter (fun r => decide (ri.off ≤ r.off ∧ r.off ≤ rj.off))).map
+        (fun r => lineOf code r.off))
+
+/-- **C05, per measurement, at text level, in one statement**: under the lexer contract (`RawOk`,
+only `Text` tokens empty, no keyword / name token starting with a newline) every measurement of
+every text in every shipped language satisfies `MeasurementTextWF`. -/
+theorem measurement_text_clause (L : Language) (hL : L ∈ Gen.all.map (·.2)) (code : Str)
+    (raw : List RawTok) (h : RawOk code raw) (hne : ∀ t ∈ raw, t.kind ≠ 6 → t.val ≠ [])
+    (hnk : NamesStartInLine raw)
+    (ms : List Measurement) (n : Nat) (ha : analyze L code raw = .ok (ms, n)) :
+    ∀ m ∈ ms, MeasurementTextWF code raw m := by
+  intro m hm
+  obtain ⟨ri, rj, rk, h1, h2, h3, h4, h5, h6, h7, h8, h9, h10, _, h12, _, h14, h15, h16, h17, h18, h19⟩ :=
+    measurement_text_wf L hL code raw h hne ms n ha m hm
+  obtain ⟨g1, g2, g3, g4, ls, le, _, _, gls, gle, _, _, g7, g8, _⟩ :=
+    measurement_lines_columns L hL code raw h hne ms n ha m hm
+  obtain ⟨ls', _, _, f1, f2, f3, _⟩ := start_column_in_line_partial L hL code raw h hne hnk ms n ha m hm
+  rw [gls] at f1
+  cases f1
+  exact ⟨ri, rj, rk, ls, le, h1, h2, h3, h4, h5, h6, h7, h8, h9, h10, h12, h14, g1, g2, g3, g4, gls, gle,
+    f2, f3, g7, g8, h15, h16, h17, h18, h19⟩
 
 /-! ## 5. non-vacuity -/
 
@@ -410,14 +456,14 @@ example :
   have hne : ∀ t ∈ cRaw, t.kind ≠ 6 → t.val ≠ [] := by decide
   have ha : analyze Gen.c cCode cRaw = .ok ([⟨[102], 1, 5, 3, 2, 3⟩], 3) :=
     analyze_eval (by decide +kernel) rfl
-  have hnk : ∀ r ∈ cRaw, r.kind = 1 ∨ r.kind = 2 → r.val.head? ≠ some 10 := by decide
+  have hnk : NamesStartInLine cRaw := by decide
   refine ⟨hL, hok, hne, ha, by decide, by decide, by decide, hnk, ?_, ?_⟩
   · intro m hm
     obtain ⟨h1, h2, h3, _⟩ := measurement_lines_columns Gen.c hL cCode cRaw hok hne _ _ ha m hm
     exact ⟨h1, h2, h3⟩
   · intro m hm
     obtain ⟨ls, _, _, h1, h2, h3, _⟩ :=
-      start_column_in_line Gen.c hL cCode cRaw hok hne hnk _ _ ha m hm
+      start_column_in_line_partial Gen.c hL cCode cRaw hok hne hnk _ _ ha m hm
     exact ⟨ls, h1, h2, h3⟩
 
 /-- Python: the function ends inside a multi-line token: 1:1 - 3:7, offset 22 = end of text;
